@@ -28,10 +28,10 @@ function classify (prop, v, known) {
   return null
 }
 
-async function runWorkers (driverFile, tier, W, seed) {
+async function runWorkers (driverFile, tier, W, seed, heapMB) {
   const results = await Promise.all(Array.from({ length: W }, (_, w) => new Promise((resolve, reject) => {
     const child = fork(path.join(__dirname, 'lib', 'worker.js'), [driverFile, tier, String(w), String(W), String(seed)], {
-      execArgv: ['--stack-size=4000', '--max-old-space-size=3000', '--experimental-vm-modules', '--no-warnings']
+      execArgv: ['--stack-size=4000', '--max-old-space-size=' + (heapMB || process.env.VERIF_WORKER_HEAP_MB || 3000), '--experimental-vm-modules', '--no-warnings']
     })
     let got = null
     child.on('message', (m) => { got = m })
@@ -92,8 +92,12 @@ async function main () {
   // master builds the space once to get the exploration counts (workers re-derive the same list)
   const built = await driver.build(tier, { tier, seed, master: true })
   if (driver.workers) W = Math.min(W, driver.workers)
+  // every worker derives the whole leaf list before it takes its share: the drivers whose thorough list is several
+  // million leaves run fewer workers with a larger heap (peak memory = workers x list size)
+  let heapMB = null
+  if (tier === 'thorough' && driver.thoroughWorkers) { W = Math.min(W, driver.thoroughWorkers); heapMB = driver.thoroughHeapMB || null }
   W = Math.max(1, Math.min(W, built.leaves.length))
-  const results = await runWorkers(driverFile, tier, W, seed)
+  const results = await runWorkers(driverFile, tier, W, seed, heapMB)
 
   const known = loadKnown()
   let evaluations = 0
